@@ -2201,8 +2201,11 @@ class Interp:
                 return Unk('element %d of a compressed selection' % w, e)
             if isinstance(w, int) and not isinstance(w, bool):
                 self.positional.append((lab, w, mod.path, e.lineno))
+                if lab is not None and lab in self.axis_len and not -self.axis_len[lab] <= w < self.axis_len[lab]:
+                    raise PyRaise('IndexError', 'index %d is out of bounds for an axis of %d positions' % (w, self.axis_len[lab]))
                 if lab is not None:
-                    poly = alg.mk_fn('at', B(lab, poly), P(num(w)))
+                    # on an axis of known length a position counted from the end is a position counted from the front
+                    poly = alg.mk_fn('at', B(lab, poly), P(num(w + self.axis_len[lab] if w < 0 and lab in self.axis_len else w)))
                 ax += 1
                 continue
             if isinstance(w, str):
